@@ -218,7 +218,7 @@ func VerifHarness_RelStep(lo, hi, fork uint64) {
 	getHash := func(n uint64) common.Hash { return verifUF32("blockhash", common.BigToHash(new(big.Int).SetUint64(n)).Bytes()) }
 	coinbase := verifAddr("coinbase")
 	baseFee, difficulty := verifBig("basefee"), verifBig("difficulty")
-	number, gasLimit, timestamp := big.NewInt(0), verifU64("gaslimit"), uint64(0)
+	number, gasLimit, timestamp := new(big.Int).SetUint64(verifU64("blocknumber")), verifU64("gaslimit"), verifU64("timestamp")
 	origin := verifAddr("origin")
 	debug := verifBool("debug")
 	jp := verifParam("joinpoints") == 1
@@ -735,3 +735,123 @@ func VerifHarness_RelGas(lo, hi, fork uint64) {
 
 // verifMemCostWords is the memory fee already paid for w words.
 func verifMemCostWords(w uint64) uint64 { return w*params.MemoryGas + w*w/params.QuadCoeffDiv }
+
+func init() {
+	verifHarnesses["VerifHarness_ModexpGas"] = VerifHarness_ModexpGas
+}
+
+// VerifHarness_ModexpGas: the real gas function of the modexp precompile (not its summary),
+// artela vs go-ethereum v1.12.0, on inputs whose three length fields are drawn from a small
+// set of boundary values (including one far beyond the data present) and whose data bytes
+// are arbitrary; the input may be truncated at every field boundary.  Writes to package-level
+// big-number constants are reported by the engine (C16/C17).
+func VerifHarness_ModexpGas(eip2565 uint64) {
+	sizes := []uint64{0, 1, 32, 33, 1 << 20}
+	if verifParam("full") == 1 {
+		sizes = []uint64{0, 1, 31, 32, 33, 64, 1 << 20}
+	}
+	pick := func(name string) uint64 {
+		i := verifU64(name)
+		verifAssume(i < uint64(len(sizes)))
+		return sizes[verifConcretize(i)]
+	}
+	capped := func(x uint64) uint64 {
+		if x > 64 {
+			return 64
+		}
+		return x
+	}
+	bl, el, ml := pick("baselen"), pick("explen"), pick("modlen")
+	full := make([]byte, 96+capped(bl)+capped(el)+capped(ml))
+	put := func(off int, v uint64) {
+		for k := 0; k < 8; k++ {
+			full[off+31-k] = byte(v >> (8 * uint(k)))
+		}
+	}
+	put(0, bl)
+	put(32, el)
+	put(64, ml)
+	data := verifBytes("data", uint64(len(full)-96), 192)
+	copy(full[96:], data)
+	cuts := []uint64{0, 96, 96 + capped(bl) + 1, 96 + capped(bl) + capped(el), uint64(len(full))}
+	if verifParam("full") == 1 {
+		cuts = []uint64{0, 95, 96, 96 + capped(bl), 96 + capped(bl) + 1, 96 + capped(bl) + capped(el), uint64(len(full))}
+	}
+	ci := verifU64("cut")
+	verifAssume(ci < uint64(len(cuts)))
+	n := cuts[verifConcretize(ci)]
+	if n > uint64(len(full)) {
+		n = uint64(len(full))
+	}
+	input := full[:n]
+	inputG := common.CopyBytes(input)
+	gA := (&bigModExp{eip2565: eip2565 == 1}).RequiredGas(input)
+	gG := ethvm.VerifModexpGas(eip2565 == 1, inputG)
+	verifReach("both-priced")
+	verifAssert(gA == gG, "C02: modexp is charged exactly as in go-ethereum for every length field and exponent head")
+	gA2 := (&bigModExp{eip2565: eip2565 == 1}).RequiredGas(input)
+	verifAssert(gA2 == gA, "C16: pricing the same input twice gives the same fee")
+}
+
+func init() {
+	verifHarnesses["VerifHarness_ModexpWork"] = VerifHarness_ModexpWork
+}
+
+var verifModexpFee uint64
+
+// verifModexpOOB is called by the engine when the precompile body asks for a buffer larger
+// than the encoding's: the fee computed from the same input must pay for it.
+func verifModexpOOB(size uint64) {
+	verifAssert(size/64 <= verifModexpFee+128, "C20: modexp never allocates by a length field that its fee does not cover")
+}
+
+// VerifHarness_ModexpWork: the real body and the real gas function of the modexp precompile
+// (not their summaries; the exponentiation itself stays an uninterpreted function) behind the
+// real RunPrecompiledContract, on inputs whose base and modulus lengths are 0, 1 or 32 and
+// whose exponent length is 0, 1, 32 or an arbitrary value from 2^12 to 2^64-1, with 0, 1, 33
+// or 100 data bytes present.  Gas supplied: arbitrary up to 2^40 (far above any block limit;
+// beyond it the length arithmetic of the body may wrap, as in go-ethereum).
+func VerifHarness_ModexpWork(eip2565 uint64) {
+	sizes := []uint64{0, 1, 32}
+	pick := func(name string, from []uint64) uint64 {
+		i := verifU64(name)
+		verifAssume(i < uint64(len(from)))
+		return from[verifConcretize(i)]
+	}
+	bl, ml := pick("baselen", sizes), pick("modlen", sizes)
+	var el uint64
+	if verifBool("explen.large") {
+		el = verifU64("explen")
+		verifAssume(el >= 1<<12)
+	} else {
+		el = pick("explen.small", sizes)
+	}
+	dl := pick("datalen", []uint64{0, 1, 33, 100})
+	input := make([]byte, 96+dl)
+	put := func(off int, v uint64) {
+		for k := 0; k < 8; k++ {
+			input[off+31-k] = byte(v >> (8 * uint(k)))
+		}
+	}
+	put(0, bl)
+	put(32, el)
+	put(64, ml)
+	copy(input[96:], verifBytes("data", dl, 100))
+	c := &bigModExp{eip2565: eip2565 == 1}
+	supplied := verifU64("supplied")
+	verifAssume(supplied <= 1<<40)
+	verifModexpFee = c.RequiredGas(input)
+	out, left, err := RunPrecompiledContract(context.Background(), c, input, supplied)
+	verifReach("ran")
+	if verifModexpFee > supplied {
+		verifAssert(err == ErrOutOfGas && left == 0 && out == nil, "C14: an unaffordable modexp call is refused before the body runs")
+		return
+	}
+	verifReach("affordable")
+	verifAssert(err == nil && left == supplied-verifModexpFee, "C03: modexp does not fail on well-formed length fields")
+	if bl == 0 && ml == 0 {
+		verifAssert(len(out) == 0, "C14: empty base and modulus give an empty result")
+	} else {
+		verifAssert(uint64(len(out)) == ml, "C14: the result has the modulus length")
+	}
+}
